@@ -138,6 +138,8 @@ def run(ctx):
     rng = ctx.rng
     progs, items = sc.fragment_items(rng, ctx.n(30, 380), 3, 3, 5, extra=[(pg.shape_andor, ctx.n(160, 1400))])
     items += wide_items(rng, ctx.n(8, 40))
+    from checks import c04_lt
+    items += c04_lt.coind_custom_items()
     items += corpus_items(rng, ctx.n(50, 2000), ctx.n(1, 2))
     mism, perr = sc.run_items(items, cpu=ctx.n(4, 6), timeout=ctx.n(600, 3000))
     if mism:
